@@ -1,0 +1,70 @@
+//go:build verif
+
+package backend
+
+import (
+	"time"
+
+	proto "github.com/kubewharf/kubebrain-client/api/v2rpc"
+
+	"github.com/kubewharf/kubebrain/pkg/metrics"
+)
+
+// This file only exists with the `verif` build tag. It exposes, add-only, the few
+// unexported knobs and accessors the conformance harness in /verif needs.
+
+// VerifSetRetryIntervals overrides the async retry loop intervals (defaults 5s / 1s).
+// It must be called before NewBackend.
+func VerifSetRetryIntervals(retry, check time.Duration) {
+	retryInterval = retry
+	checkInterval = check
+}
+
+// VerifSetEventsTTL overrides the TTL (seconds) for event keys (default 3600).
+// It must be called before NewBackend.
+func VerifSetEventsTTL(seconds int64) {
+	eventsTTL = seconds
+}
+
+// VerifNewWatcherHub builds a stand-alone WatcherHub.
+func VerifNewWatcherHub(metricCli metrics.Metrics) *WatcherHub {
+	return &WatcherHub{
+		subs:      make(map[chan []*proto.Event]struct{}),
+		metricCli: metricCli,
+	}
+}
+
+// VerifWatchBuffer is the per-subscriber buffer size of the hub.
+const VerifWatchBuffer = watchBuffer
+
+// VerifResultChanLength is the size of the per-watch result channel.
+const VerifResultChanLength = resultChanLength
+
+// VerifFindRet is an exported copy of FindRet.
+type VerifFindRet struct {
+	Empty, High, Low bool
+	Newest, Oldest   *proto.Event
+	Events           []*proto.Event
+}
+
+// VerifFind runs FindEvents and copies the result into an exported struct.
+func (r *Ring) VerifFind(revision uint64) VerifFindRet {
+	ret := r.FindEvents(revision)
+	return VerifFindRet{Empty: ret.empty, High: ret.high, Low: ret.low, Newest: ret.newest, Oldest: ret.oldest, Events: ret.events}
+}
+
+// VerifRetryQueueSize returns the number of uncertain operations waiting for repair.
+func VerifRetryQueueSize(b Backend) int {
+	return b.(*backend).asyncFifoRetry.Size()
+}
+
+// VerifHubSubs returns the number of subscribers registered in the hub.
+func VerifHubSubs(b Backend) int {
+	h := b.(*backend).watcherHub
+	h.RLock()
+	defer h.RUnlock()
+	return len(h.subs)
+}
+
+// VerifTombstone is the reserved deletion marker.
+func VerifTombstone() []byte { return append([]byte(nil), tombStoneBytes...) }
